@@ -210,18 +210,47 @@ theorem ackedItems_append (s : State) (q : Req) :
       ackedItems s ++ (if q.result.success then items q.payload.cache else []) := by
   simp [ackedItems]
 
-/-- the conservation invariant of the repaired code: acknowledged + cached = constant -/
-theorem sendAndEmpty_conserves (s : State) (script : List Attempt) :
-    (ackedItems (sendAndEmpty s script) ++ items (sendAndEmpty s script).cache).Perm
-      (ackedItems s ++ items s.cache) := by
+theorem items_addAll (c : Cache) (xs : List (Run × DP)) : (items (addAll c xs)).Perm (items c ++ xs) := by
+  induction xs generalizing c with
+  | nil => simp [addAll]
+  | cons x xs ih =>
+    have h1 : addAll c (x :: xs) = addAll (cacheAdd c x.1 x.2) xs := rfl
+    rw [h1]
+    refine (ih (cacheAdd c x.1 x.2)).trans ?_
+    have h2 := items_cacheAdd c x.1 x.2
+    have h3 : (items c ++ [(x.1, x.2)] ++ xs) = items c ++ x :: xs := by simp
+    rw [← h3]
+    exact List.Perm.append_right _ h2
+
+theorem items_addAll_nil (xs : List (Run × DP)) : (items (addAll [] xs)).Perm xs := by
+  simpa [items] using items_addAll [] xs
+
+theorem items_mergeBack (a b : Cache) : (items (mergeBack a b)).Perm (items a ++ items b) :=
+  items_addAll a (items b)
+
+/-- the conservation invariant of the repaired code: acknowledged + cached = constant,
+also when other threads hand over data points while the request is in flight -/
+theorem sendAndEmpty_conserves (s : State) (script : List Attempt) (during : List (Run × DP)) :
+    (ackedItems (sendAndEmpty s script during) ++ items (sendAndEmpty s script during).cache).Perm
+      (ackedItems s ++ items s.cache ++ during) := by
   unfold sendAndEmpty
   split
-  · exact List.Perm.refl _
   · rename_i hc
-    simp only
+    have : ackedItems { s with cache := addAll [] during } = ackedItems s := rfl
+    rw [this, hc]
+    simp only [items, List.flatMap_nil, List.append_nil]
+    exact List.Perm.append_left _ (by simpa [items] using items_addAll_nil during)
+  · rename_i hc
     by_cases h : (sendWithRetries script).success = true
-    · simp [ackedItems, h, items, hc]
-    · simp [ackedItems, h, hc]
+    · simp only [ackedItems, h, if_true, List.flatMap_append, List.flatMap_cons, List.flatMap_nil,
+        List.append_nil, List.append_assoc]
+      rw [hc]
+      exact List.Perm.append_left _ (List.Perm.append_left _ (items_addAll_nil during))
+    · simp only [ackedItems, h, List.flatMap_append, List.flatMap_cons, List.flatMap_nil,
+        List.append_nil, List.append_assoc, Bool.false_eq_true, if_false]
+      rw [hc]
+      refine List.Perm.append_left _ ?_
+      exact (items_mergeBack _ _).trans (List.Perm.append_left _ (items_addAll_nil during))
 
 theorem step_conserves (s : State) (e : Event) :
     (ackedItems (step s e) ++ items (step s e).cache).Perm
@@ -232,14 +261,16 @@ theorem step_conserves (s : State) (e : Event) :
     have : ackedItems { s with cache := cacheAdd s.cache r d } = ackedItems s := rfl
     rw [this, List.append_assoc]
     exact List.Perm.append_left _ (items_cacheAdd s.cache r d)
-  | sendData now script =>
+  | sendData now script during =>
     simp only [step, stepWith, persisted, List.append_nil]
     split
-    · exact sendAndEmpty_conserves s script
-    · exact List.Perm.refl _
-  | close script =>
+    · exact sendAndEmpty_conserves s script during
+    · have : ackedItems { s with cache := addAll s.cache during } = ackedItems s := rfl
+      rw [this, List.append_assoc]
+      exact List.Perm.append_left _ (items_addAll s.cache during)
+  | close script during =>
     simp only [step, stepWith, persisted, List.append_nil]
-    exact sendAndEmpty_conserves s script
+    exact sendAndEmpty_conserves s script during
 
 theorem persisted_append (es fs : List Event) : persisted (es ++ fs) = persisted es ++ persisted fs := by
   induction es with
